@@ -438,7 +438,30 @@ class Check:
         }
         if st["closed"] < n and not st["axioms"]:
             self.notes.append(f"Print Assumptions printed for {st['closed']} of {n} theorems")
+        if self.tier == "thorough":
+            ck = coqchk_status(self.pid)
+            self.coverage["coqchk"] = {k: v for k, v in ck.items() if k != "tail"}
+            clean = all(ck.get(k) == "<none>" for k in ("axioms", "type_in_type", "unsafe_fixpoints", "assumed_positivity"))
+            if not ck["ok"] or not clean:
+                self.violation({"kind": "broken-theorem", "what": f"coqchk does not accept Redress.Props.{self.pid} with an empty context "
+                                f"summary: {ck}"}, no_input=True)
+                return False
         return True
+
+
+def coqchk_status(pid: str):
+    """Re-check the compiled property module and everything it depends on with Coq's independent checker; report its
+    context summary (axioms, type-in-type, unsafe fixpoints, assumed positivity)."""
+    rc, out, err, wall = run(["coqchk", "-silent", "-o", "-Q", "theories", "Redress", f"Redress.Props.{pid}"], 1500, cwd=COQ)
+    text = out + err
+    summary = {}
+    for key, label in (("axioms", "Axioms"), ("type_in_type", "Constants/Inductives relying on type-in-type"),
+                       ("unsafe_fixpoints", "Constants/Inductives relying on unsafe (co)fixpoints"),
+                       ("assumed_positivity", "Inductives whose positivity is assumed")):
+        m = re.search(r"\* " + re.escape(label) + r":(.*?)(?=\n\* |\Z)", text, re.S)
+        summary[key] = " ".join(m.group(1).split()) if m else "?"
+    ok = rc == 0
+    return {"ok": ok, "seconds": round(wall, 1), **summary, "tail": "" if ok else text[-1500:]}
 
 
 def load_known_findings():
